@@ -633,6 +633,12 @@ func (p *c09prop) Run(c *core.Case, st *core.Stats) []core.Violation {
 			return []core.Violation{core.V(c, "invert-wrong", "InvertSA: sainv[sa[%d]=%d]=%d for %s", i, s, inv[s], desc())}
 		}
 	}
+	type heldSlice struct {
+		mode    int
+		name    string
+		s, want []int32
+	}
+	var held []heldSlice
 	for mode := 0; mode < 5; mode++ {
 		if mode >= 3 && c.Idx%3 != 0 {
 			break
@@ -664,6 +670,21 @@ func (p *c09prop) Run(c *core.Case, st *core.Stats) []core.Violation {
 		}
 		if pv := call(func() { suffix.LCP(t, a, b, lcp) }); pv != nil {
 			return []core.Violation{core.V(c, "lcp-panic", "suffix.LCP (mode %d) panics for %s: %v", mode, desc(), pv)}
+		}
+		// the slices handed in stay the caller's: they must still hold the
+		// suffix array / its inverse after this and after every later call
+		if mode <= 1 {
+			held = append(held, heldSlice{mode, "sa", a, sa})
+			if mode == 0 {
+				held = append(held, heldSlice{mode, "sainv", b, inv})
+			}
+		}
+		for _, h := range held {
+			for i := range h.want {
+				if h.s[i] != h.want[i] {
+					return []core.Violation{core.V(c, "lcp-argument-modified", "the %s slice handed to suffix.LCP in mode %d was changed (index %d: %d, was %d) by that call or a later LCP call (now mode %d) for %s", h.name, h.mode, i, h.s[i], h.want[i], mode, desc())}
+				}
+			}
 		}
 		if n > 0 && lcp[0] != 0 {
 			return []core.Violation{core.V(c, "lcp-wrong", "lcp[0]=%d for %s (mode %d)", lcp[0], desc(), mode)}
@@ -808,13 +829,17 @@ func (p *c10prop) Gen(kind string, idx int64, seed int64, tier string) core.Case
 			// texts of 100-900 bytes with repeats of 20-300 bytes (planted
 			// copies, B*-shaped texts, source text) and large maxLen
 			n := 100 + r.Intn(800)
+			if r.Intn(10) == 0 {
+				// (suffix.LCP may treat texts of 1 KiB and more differently)
+				n = 1024 + r.Intn(400)
+			}
 			var t []byte
 			f := []string{"bstar", "lzsynth", "text", "fib", "rand2", "planted"}[r.Intn(6)]
 			switch f {
 			case "bstar":
 				t = bstarText(r, n)
-				if len(t) > 1000 {
-					t = t[:1000]
+				if len(t) > 1500 {
+					t = t[:1500]
 				}
 			case "planted":
 				t = gen.Family(r, "rand16", n, gen.Hint{})
@@ -897,6 +922,16 @@ func checkSegments(t []byte, lcpM [][]int16, minLen, maxLen int, mode int, st *c
 		}
 		lcp = make([]int32, n)
 		if pv := call(func() {
+			// (another, longer text first: state kept between calls is in use)
+			if len(t) >= 200 {
+				warm := append(append([]byte("zyxzyxzzy"), t...), "abracadabra"...)
+				for i := range warm {
+					warm[i] ^= byte(i%3 + 1)
+				}
+				wsa, wl := make([]int32, len(warm)), make([]int32, len(warm))
+				suffix.Sort(warm, wsa)
+				suffix.LCP(warm, wsa, nil, wl)
+			}
 			suffix.Sort(t, sa)
 			suffix.LCP(t, sa, nil, lcp)
 		}); pv != nil {
